@@ -84,6 +84,26 @@ def run(ctx, eng):
     ctx.floor('functions_reachable', 70)
     require_summaries(ctx, eng, reach)
     cm.attrs_initialised(ctx, eng)
+    # what the receive path gets back from the stream machine it treats as a
+    # list of events (extends, indexes): every function a RECV_* / UPGRADE_*
+    # cell names returns one on every returning path (the functions of the
+    # SEND_* cells whose result nobody reads return None)
+    fsm = eng.fsm
+    per_fn = {}
+    for (st, inp), (fn, nxt, node) in sorted(fsm.stream.cells.items()):
+        if fn and not inp.startswith('SEND_'):
+            per_fn.setdefault(fn, []).append('%s|%s' % (st, inp))
+    for fn, cells in sorted(per_fn.items()):
+        f2 = m.func('stream.H2StreamStateMachine.' + fn, required=False)
+        if f2 is None:
+            continue
+        vals = [p.value for p in cm.normal_paths(eng.I.run(f2))]
+        ok = all(v is not None and v[0] == 'obj' and v[-1] == 'list'
+                 for v in vals)
+        ctx.ob('TAB.returns', f2.qual, 'returns a list of events', ok,
+               'used by %d receive cells (%s ...): a None or other value is '
+               'a TypeError in the handler that extends the event list' % (
+                   len(cells), cells[0]), node=f2.node)
     # ---- per-obligation accounting inside the reachable set
     D = eng.D
     n_ops = n_dis = 0
